@@ -2,6 +2,7 @@
 import multiprocessing as mp
 import os
 import random
+import time
 
 from engine import graph, tlc
 from checks import events_driver as ED
@@ -19,8 +20,9 @@ MANIFEST = dict(
          "TLC checks all interleavings of 2 (quick) / 3 (thorough) threads and every edge is replayed on the real code by a deterministic baton scheduler.",
     design_ref="3.6, 2.5, 4 (C28)",
     note="trusted: TLC; sys.settrace line events + shim Lock as the complete set of points where a thread switch matters; domain restriction: a function "
-         "is registered on at most one target at a time, _update at most once per history; bounded classes/instances/functions/depth; two defects "
-         "recorded as known findings (exec_once on a joined dispatcher raises AttributeError; lazy creation of the exec-once mutex is not atomic on GIL builds)",
+         "is registered on at most one target at a time, _update at most once per history; bounded classes/instances/functions/depth; the two defects "
+         "this check found (exec_once on a joined dispatcher raised AttributeError; lazy creation of the exec-once mutex raced on GIL builds) were "
+         "repaired by fix: commits - checks/events_driver.probe_tree picks the spec variant that follows the tree, a regression is a VIOLATION",
     technique="TLA+ specs (Events.tla, ExecOnce.tla) + TLC exhaustive model checking; spec->code replay of every state-graph edge and of simulated "
               "deep walks into sqlalchemy.event; thread interleavings chosen by TLC replayed by a deterministic scheduler")
 
@@ -121,65 +123,7 @@ def _report(chk, spec, mism):
         chk.violation(sig, "sqlalchemy.event diverges from %s.tla: %s" % (spec, text[:600]), m)
 
 
-def main(chk):
-    rng = random.Random(chk.seed)
-    tree = ED.probe_tree()
-    quick = chk.quick
-    nproc = tlc.NPROC
-    # ------------------------------------------------------------------ 1. Events.tla: exhaustive model checking
-    base = dict(NF=3, InstCls="{1,2,3,4}", CPars="{1,2,3}", BadRm="{1,11}", JoinedXoBroken=tree["joined_xo_broken"])
-    if quick:
-        chk_consts, chk_styles = dict(base, MaxDepth=5), "StylesQuick"        # CONSTRAINT Depth: level <= MaxDepth, i.e. walks of MaxDepth-1 steps
-        dump_consts, dump_styles, nshards, nrand = dict(base, MaxDepth=5), "StylesQuick", 8, 20
-        sim_num, sim_depth = 1500, 9
-    else:
-        chk_consts, chk_styles = dict(base, MaxDepth=6), "StylesQuick"
-        dump_consts, dump_styles, nshards, nrand = dict(base, MaxDepth=5), "StylesFull", 16, 200
-        sim_num, sim_depth = 12000, 10
-    r = tlc.run("Events", _events_cfg(chk_consts, chk_styles, invs=INVS, props=PROPS), chk.work + "/mc", workers=nproc,
-                timeout=3000, keep_stdout=False)
-    if r.violated:
-        chk.violation({"spec": "Events", "action": "TLC", "invariant": r.violated}, "TLC: %s violated in Events.tla" % r.violated,
-                      {"invariant": r.violated, "tail": r.stdout[-6000:]})
-    # 1b. the intended behaviour of exec_once on a joined dispatcher (the spec follows the code where they differ)
-    if tree["joined_xo_broken"]:
-        r2 = tlc.run("Events", _events_cfg(dict(base, MaxDepth=4), "StylesQuick", props=["ExecOnceRuns"]), chk.work + "/mc2",
-                     workers=nproc, timeout=900, keep_stdout=False)
-        if r2.violated:
-            chk.violation({"spec": "Events", "action": "ExecOnce", "invariant": "ExecOnceRuns", "target": "joined", "got": "AttributeError"},
-                          "exec_once on a joined dispatcher (_JoinedListener) raises AttributeError('_is_asyncio') and calls no listener")
-        else:
-            chk.machinery("calibration: probe says exec_once on a joined listener is broken but TLC finds ExecOnceRuns to hold")
-    # ------------------------------------------------------------------ 2. every edge, replayed (sharded by the first step)
-    jobs = [(i, nshards, dump_consts, dump_styles, chk.work + "/dump", chk.seed, nrand) for i in range(nshards)]
-    ctx = mp.get_context("fork")
-    with ctx.Pool(max(1, min(nshards, nproc))) as pool:
-        res = pool.map(_shard, jobs, chunksize=1)
-    cov, detail = {}, {}
-    for x in res:
-        for k, v in x["cov"].items():
-            cov[k] = cov.get(k, 0) + v
-        for k, v in x["detail"].items():
-            detail[k] = detail.get(k, 0) + int(v)
-        _report(chk, "Events", x["mism"])
-    for a in FOOTPRINT:
-        if not cov.get(a):
-            chk.machinery("vacuous: action %s never taken" % a)
-    for k in ("insert", "once", "named", "retval", "propagate", "remove_ok", "remove_bad", "dispatch_nonempty", "execonce_raise", "join",
-              "late_inst", "once_skipped"):
-        if not detail.get(k):
-            chk.machinery("vacuous: no edge exercises %s" % k)
-    uncovered = sum(x["plan"]["edges"] - x["plan"]["edges_covered"] for x in res)
-    if uncovered:
-        chk.machinery("tour planner left %d edges uncovered" % uncovered)
-    # ------------------------------------------------------------------ 3. deep walks sampled by TLC's simulator
-    sim_cfg = _events_cfg(dict(base, MaxDepth=sim_depth + 1), "StylesFull", emit=True)
-    sg, swalks = ED.simulate_walks("Events", sim_cfg, chk.work + "/sim", sim_num, sim_depth, chk.seed + 1, timeout=1500)
-    if len(swalks) < sim_num // 2:
-        chk.machinery("simulator produced only %d walks" % len(swalks))
-    ssteps, smism = graph.replay(sg, swalks, lambda wid, w: ED.Driver(wid, w), chk.work + "/simreplay", nproc=nproc)
-    _report(chk, "Events", smism)
-    # ------------------------------------------------------------------ 4. ExecOnce.tla: all interleavings
+def _schedules(chk, rng, tree, quick, nproc):
     nt = 2 if quick else 3
     atomic = tree["atomic_mutex"]
     fams = '{"xo", "once"}'
@@ -210,22 +154,7 @@ def main(chk):
     # every edge of the interleaving graph against the real code
     xg = graph.dump("ExecOnce", tlc.cfg(constants=xc, init="InitEmit", view="View", action_constraints=["Emit"]), chk.work + "/xod",
                     timeout=2400)
-    xfilter = None
-    if not quick:
-        # 3 threads: replay the scenarios chosen by the seed (all of them are model-checked above), every edge of those
-        keep = set(rng.sample(sorted(xg.inits), min(len(xg.inits), 24)))
-        reach = set(keep)
-        stack = list(keep)
-        while stack:
-            s = stack.pop()
-            for ei in xg.out[s]:
-                t = xg.edges[ei][2]
-                if t not in reach:
-                    reach.add(t)
-                    stack.append(t)
-        xg.inits = [i for i in xg.inits if i in keep]
-        xfilter = lambda e: e[0] in reach
-    xwalks, xplan = graph.plan_tours(xg, 400, rng, edge_filter=xfilter, budget_s=600)
+    xwalks, xplan = graph.plan_tours(xg, 400, rng, budget_s=600)
     xsteps, xmism = graph.replay(xg, xwalks, lambda wid, w: ED.SchedDriver(wid, w), chk.work + "/xoreplay", nproc=nproc)
     _report(chk, "ExecOnce", xmism)
     pcs = {}
@@ -237,6 +166,93 @@ def main(chk):
             chk.machinery("vacuous: no interleaving takes step %s" % p)
     twice = sum(1 for s in xg.states.values() if s["fam"] == "xo" and s["nfin"] >= 2)
     idx = sum(1 for s in xg.states.values() if "IndexError" in s["res"])
+    return dict(nt=nt, atomic=atomic, xr=xr, xa=xa, xg=xg, xwalks=xwalks, xplan=xplan, xsteps=xsteps, pcs=pcs, twice=twice, idx=idx)
+
+
+def main(chk):
+    rng = random.Random(chk.seed)
+    tree = ED.probe_tree()
+    phase, t0 = {}, time.time()
+
+    def lap(name):
+        nonlocal t0
+        phase[name] = round(time.time() - t0, 1)
+        t0 = time.time()
+    quick = chk.quick
+    nproc = tlc.NPROC
+    # ------------------------------------------------------------------ 1. Events.tla: exhaustive model checking
+    base = dict(NF=3, InstCls="{1,2,3,4}", CPars="{1,2,3}", BadRm="{1,11}", JoinedXoBroken=tree["joined_xo_broken"])
+    if quick:
+        chk_consts, chk_styles = dict(base, MaxDepth=5), "StylesQuick"        # CONSTRAINT Depth: level <= MaxDepth, i.e. walks of MaxDepth-1 steps
+        dump_consts, dump_styles, nshards, nrand = dict(base, MaxDepth=5), "StylesQuick", 8, 20
+        sim_num, sim_depth = 120, 9
+    else:
+        chk_consts, chk_styles = dict(base, MaxDepth=6), "StylesQuick"
+        dump_consts, dump_styles, nshards, nrand = dict(base, MaxDepth=5), "StylesFull", 16, 200
+        sim_num, sim_depth = 1500, 10
+    r = tlc.run("Events", _events_cfg(chk_consts, chk_styles, invs=INVS, props=PROPS), chk.work + "/mc", workers=nproc,
+                timeout=3000, keep_stdout=False)
+    if r.violated:
+        chk.violation({"spec": "Events", "action": "TLC", "invariant": r.violated}, "TLC: %s violated in Events.tla" % r.violated,
+                      {"invariant": r.violated, "tail": r.stdout[-6000:]})
+    # 1b. the intended behaviour of exec_once on a joined dispatcher (the spec follows the code where they differ)
+    if tree["joined_xo_broken"]:
+        r2 = tlc.run("Events", _events_cfg(dict(base, MaxDepth=4), "StylesQuick", props=["ExecOnceRuns"]), chk.work + "/mc2",
+                     workers=nproc, timeout=900, keep_stdout=False)
+        if r2.violated:
+            chk.violation({"spec": "Events", "action": "ExecOnce", "invariant": "ExecOnceRuns", "target": "joined", "got": "AttributeError"},
+                          "exec_once on a joined dispatcher (_JoinedListener) raises AttributeError('_is_asyncio') and calls no listener")
+        else:
+            chk.machinery("calibration: probe says exec_once on a joined listener is broken but TLC finds ExecOnceRuns to hold")
+    lap("events_tlc")
+    # ------------------------------------------------------------------ 2. every edge, replayed (sharded by the first step)
+    jobs = [(i, nshards, dump_consts, dump_styles, chk.work + "/dump", chk.seed, nrand) for i in range(nshards)]
+    ctx = mp.get_context("fork")
+    with ctx.Pool(max(1, min(nshards, nproc))) as pool:
+        res = pool.map(_shard, jobs, chunksize=1)
+    cov, detail = {}, {}
+    for x in res:
+        for k, v in x["cov"].items():
+            cov[k] = cov.get(k, 0) + v
+        for k, v in x["detail"].items():
+            detail[k] = detail.get(k, 0) + int(v)
+        _report(chk, "Events", x["mism"])
+    for a in FOOTPRINT:
+        if not cov.get(a):
+            chk.machinery("vacuous: action %s never taken" % a)
+    for k in ("insert", "once", "named", "retval", "propagate", "remove_ok", "remove_bad", "dispatch_nonempty", "execonce_raise", "join",
+              "late_inst", "once_skipped"):
+        if not detail.get(k):
+            chk.machinery("vacuous: no edge exercises %s" % k)
+    uncovered = sum(x["plan"]["edges"] - x["plan"]["edges_covered"] for x in res)
+    if uncovered:
+        chk.machinery("tour planner left %d edges uncovered" % uncovered)
+    lap("events_edges")
+    # ------------------------------------------------------------------ 3. deep walks sampled by TLC's simulator
+    sim_cfg = _events_cfg(dict(base, MaxDepth=sim_depth + 1), "StylesFull", invs=["SimEmit"])
+    sg, swalks = ED.simulate_walks("Events", sim_cfg, chk.work + "/sim", sim_num, sim_depth, chk.seed + 1, timeout=1500)
+    if len(swalks) < sim_num // 2:
+        chk.machinery("simulator produced only %d walks" % len(swalks))
+    ssteps, smism = graph.replay(sg, swalks, lambda wid, w: ED.Driver(wid, w), chk.work + "/simreplay", nproc=nproc)
+    _report(chk, "Events", smism)
+    lap("events_sim")
+    # ------------------------------------------------------------------ 4. ExecOnce.tla: all interleavings
+    try:
+        X = _schedules(chk, rng, tree, quick, nproc)
+    except ED.Watchdog as e:
+        # the scheduler cannot follow this tree (a yield point moved / a thread got stuck).  That is a machinery failure unless
+        # the histories part has already shown a divergence, in which case that verdict stands.
+        if not chk.violations:
+            chk.machinery(str(e))
+        return chk.finish(dict(states=r.distinct, transitions=r.generated, events_edges_replayed=sum(x["edges"] for x in res),
+                               schedules_skipped=str(e)[:200], samples=[s_ for x in res[:1] for s_ in x["samples"]],
+                               distinct_nontrivial=sum(x["nontriv"] for x in res), evaluations=sum(x["steps"] for x in res) + ssteps,
+                               traces_validated_against_impl=sum(x["walks"] for x in res) + len(swalks),
+                               rule="histories part only: the schedules part could not bind to this tree"),
+                          assumptions=["schedules part not run: " + str(e)[:200]])
+    lap("schedules")
+    nt, atomic, xr, xa, xg, xwalks, xplan, xsteps, pcs, twice, idx = (X[k] for k in (
+        "nt", "atomic", "xr", "xa", "xg", "xwalks", "xplan", "xsteps", "pcs", "twice", "idx"))
     # ------------------------------------------------------------------ evidence
     edges = sum(x["edges"] for x in res)
     samples = [s for x in res[:2] for s in x["samples"]][:3]
@@ -258,13 +274,13 @@ def main(chk):
              traces_validated_against_impl=sum(x["walks"] for x in res) + len(swalks) + len(xwalks),
              evaluations=sum(x["steps"] for x in res) + ssteps + xsteps,
              distinct_nontrivial=sum(x["nontriv"] for x in res) + sum(1 for e in xg.edges if e[1]["p"] in ("acq", "mset", "opop")),
-             action_coverage=cov, option_coverage=detail, step_coverage=pcs, samples=samples, exhaustive=True, tree=tree,
+             phase_wall_s=phase, action_coverage=cov, option_coverage=detail, step_coverage=pcs, samples=samples, exhaustive=True, tree=tree,
              shards=[dict(shard=x["shard"], edges=x["edges"], states=x["states"], dump_wall=x["dump_wall"]) for x in res],
              rule="histories: every labelled edge of the Events.tla graph (constants %s, %s, sharded by first step) lies on a walk from Init that is "
                   "replayed on a fresh private event hierarchy, plus %d simulated walks of <= %d steps; non-trivial = Dispatch/ExecOnce edges that call "
                   ">= 2 listeners.  schedules: every edge of the %d-thread ExecOnce.tla interleaving graph%s replayed by the baton scheduler; "
                   "non-trivial = lock acquisitions, mutex publications and once-pops" % (
-                      dump_consts, dump_styles, len(swalks), sim_depth, nt, "" if quick else " for 24 seed-chosen scenarios"),
+                      dump_consts, dump_styles, len(swalks), sim_depth, nt, ""),
              checker_cmd="tlc Events.tla (VIEW View, CONSTRAINT Depth, ACTION_CONSTRAINT EmitShard); tlc -simulate Events.tla; tlc ExecOnce.tla"),
         assumptions=["a function is registered on at most one target at a time (same function twice on one target is undefined by the statement)",
                      "_Dispatch._update at most once per history; _join only at instance creation, parent not itself joined",
